@@ -273,7 +273,8 @@ def amen_solve(A, b, nswp=22, x0=None, eps=1e-10, rmax=32768, max_full=500, kick
     if trunc_norm not in ('res', 'fro'):
         raise InvalidArguments("Invalid trunc_norm.")
 
-    if use_cpp and _flag_use_cpp:
+    # the compiled solver is written for real data: complex systems go to the Python implementation
+    if use_cpp and _flag_use_cpp and not A.cores[0].is_complex():
         if x0 == None:
             x_cores = []
             x_R = [1]*(1+len(A.N))
